@@ -24,10 +24,10 @@ theorem C11_chunk_roundtrip (ds : List Bytes) (hne : ∀ d ∈ ds, d ≠ []) :
 
 example : dechunk 100 (frameData [[1, 2], [3]] ++ lastChunk) = some [1, 2, 3] := by decide
 
-/-- component of the round trip: for well-sized pieces (everything except buffers with items wider
-than a byte), what the body loop writes in chunked mode is the chunk framing of the non-empty encoded
-pieces — which `C11_chunk_roundtrip` decodes to the payload — and in Content-Length mode it is the
-payload itself -/
+/-- component of the round trip: for every list of pieces (bytes, str, buffers of any item size —
+`wellSized` is only the object invariant of a buffer: positive item size, a whole number of items),
+what the body loop writes in chunked mode is the chunk framing of the non-empty encoded pieces — which
+`C11_chunk_roundtrip` decodes to the payload — and in Content-Length mode it is the payload itself -/
 theorem C11_body_loop_frames_payload (cs : List Chunk) (hw : ∀ c ∈ cs, wellSized c) (chunked : Bool)
     (hok : (sendChunks chunked cs).err = none) :
     ∃ ds : List Bytes, (∀ d ∈ ds, d ≠ []) ∧ chunksPayload cs = some ds.flatten ∧
@@ -37,12 +37,22 @@ theorem C11_body_loop_frames_payload (cs : List Chunk) (hw : ∀ c ∈ cs, wellS
 example : (sendChunks true [.bytes [1, 2], .str [], .str [233]]).written
     = frameData [[1, 2], [0xC3, 0xA9]] := by decide
 
+/-- non-vacuity: a buffer with two-byte items satisfies the hypothesis, and its four bytes are framed
+as one chunk of size 4 -/
+example : (∀ c ∈ [Chunk.buf [1, 0, 2, 0] 2, .buf [] 4], wellSized c) ∧
+    (sendChunks true [.buf [1, 0, 2, 0] 2, .buf [] 4]).written = frameData [[1, 0, 2, 0]] := by
+  refine ⟨?_, by decide⟩
+  intro c hc
+  simp only [List.mem_cons, List.not_mem_nil, or_false] at hc
+  rcases hc with rfl | rfl <;> simp [wellSized]
+
 /-- The full round trip: whenever the caller supplies no framing header and the request is accepted,
 the permissive head parser followed by the strict de-framer (exactly one of Content-Length / chunked, or
 neither with an empty body part) recovers exactly the body's bytes (str as UTF-8; files from their
-start offset, read in `blocksize` blocks; iterables with empty pieces).  Hypotheses: a positive
-blocksize, and no buffer with items wider than a byte (`C11_wide_buffer_witness`); the method needs no
-hypothesis (`putrequest` refuses the empty method, see C10). -/
+start offset, read in `blocksize` blocks; iterables with empty pieces; buffers with items of any
+width, see `C11_wide_buffer_ok`).  Hypotheses: a positive blocksize, and the object invariant of buffers
+(`WellSizedBody`: positive item size, a whole number of items — not a restriction on the item size);
+the method needs no hypothesis (`putrequest` refuses the empty method, see C10). -/
 theorem C11_payload_roundtrip (cfg : Cfg) (meth url : Str) (headers : List (Str × Str)) (body : Body) (ch : Bool)
     (w : Bytes)
     (h1 : (headerKeys headers).contains (lit "content-length") = false)
@@ -67,11 +77,17 @@ theorem C11_payload_roundtrip (cfg : Cfg) (meth url : Str) (headers : List (Str 
 example : (serialize c11cfg (lit "PUT") (lit "/") [] (.file ⟨[1, 2, 3, 4, 5, 6], 1, .ok, .ok, false⟩) false).toOption.bind
     (fun w => (strictParse w).bind deframe) = some (.chunked, [2, 3, 4, 5, 6]) := by decide +kernel
 
-/-- negation witness for the full round trip: `array('H', [1, 2, 3])` with `chunked=True` — the
-strict decoder rejects what was written -/
-theorem C11_wide_buffer_witness :
+/-- non-vacuity of `WellSizedBody` beyond byte-sized items: `array('H', [1, 2, 3])` -/
+example : WellSizedBody (.buffer [1, 0, 2, 0, 3, 0] 2) := by simp [WellSizedBody]
+
+example : (serialize c11cfg (lit "PUT") (lit "/") [] (.buffer [1, 0, 2, 0, 3, 0] 2) true).toOption.bind
+    (fun w => (strictParse w).bind deframe) = some (.chunked, [1, 0, 2, 0, 3, 0]) := by decide +kernel
+
+/-- `array('H', [1, 2, 3])` with `chunked=True` (the input on which the chunk-size line used to count
+items instead of bytes): the strict decoder recovers exactly the six bytes -/
+theorem C11_wide_buffer_ok :
     (sendChunks true [.buf [1, 0, 2, 0, 3, 0] 2]).err = none ∧
-    dechunk 100 ((sendChunks true [.buf [1, 0, 2, 0, 3, 0] 2]).written ++ lastChunk) = none := by
+    dechunk 100 ((sendChunks true [.buf [1, 0, 2, 0, 3, 0] 2]).written ++ lastChunk) = some [1, 0, 2, 0, 3, 0] := by
   decide
 
 /-- exactly one framing: when the caller supplies no framing header, `request` adds at most one of
@@ -104,43 +120,77 @@ theorem C11_bodyless_table (meth : Str) (bs : Nat) :
 
 def c11PayloadOf (a : Attempt) : Option (FrameKind × Bytes) := (strictParse a.wire).bind deframe
 
-def c11St0 (meth : Str) (body : Body) : HState := ⟨meth, [], body, .none, false⟩
+def c11St0 (meth : Str) (body : Body) : HState := ⟨meth, [], body, .none, false, none⟩
 
 /-
 Full statement (Appendix E):
   `(∀ a ∈ (sendHistory lvl cfg t ch hist st).attempts, ¬a.after303 → payload a = payload (first attempt))
      ∨ (sendHistory …).result = .error .unrewindableBody`   for every body, level and history.
-It does NOT hold of the code as it stands; the four witnesses below are each a history whose call
-succeeds (or ends in a bare ValueError) while a re-sent body is empty.  What holds is
-`C11_resend_identical_or_unrewindable_partial`.
+It does NOT hold of the code as it stands for two kinds of body: one-shot iterables and files without
+`tell()` (`C11_resend_oneshot_witness`, `C11_resend_no_tell_witness`: the call succeeds while the
+re-sent body is empty).  What holds is `C11_resend_identical_or_unrewindable_partial`.
 -/
-/-- the hypothesis under which re-sending works: the body is `None` / bytes / str / a buffer / a
-re-iterable iterable, or — at pool level — a file with working `seek()` and `tell()` -/
-def c11Rewindable (lvl : Level) (body : Body) : Prop :=
-  Stable body ∨ (lvl = .pool ∧ ∃ f, body = .file f ∧ f.seek = .ok ∧ f.tell = .ok)
+/-- the hypothesis of the partial theorem — everything except the two kinds of body of the remaining
+findings: not a one-shot iterable, not a file without `tell()` -/
+def c11Replayable (body : Body) : Prop :=
+  match body with
+  | .iter _ one => one = false
+  | .file f => f.tell ≠ .absent
+  | _ => True
 
-/-- For **every** attempt history: if the body is rewindable (and, for a file body, the history
-contains no 303 — see `C11_resend_pool_303_witness`), every request written before a 303 is
-byte-identical to the first one (so in particular its de-framed payload is), and the call can only
-fail with the error of sending a request, never because of re-positioning the body. -/
+/-- bodies that can always be re-sent: `None` / bytes / str / a buffer / a re-iterable iterable, or a
+file with working `seek()` and `tell()` -/
+def c11Rewindable (body : Body) : Prop :=
+  Stable body ∨ ∃ f, body = .file f ∧ f.seek = .ok ∧ f.tell = .ok
+
+/-- For **every** attempt history, at pool and at manager level, and every body other than a one-shot
+iterable or a file without `tell()`: every request written before a 303 is byte-identical to the
+first one (so in particular its de-framed payload is), and the call can only fail with
+`UnrewindableBodyError` — and that only when the body is a file whose `tell()` or `seek()` is
+missing or failing — or with the error of sending a request. -/
 theorem C11_resend_identical_or_unrewindable_partial (lvl : Level) (cfg : Cfg) (target : Str) (chunked : Bool)
-    (meth : Str) (hs : List (Str × Str)) (body : Body) (hist : List Outcome)
-    (hr : c11Rewindable lvl body) (h303 : ¬ Stable body → Outcome.redirect303 ∉ hist) :
-    (∀ a ∈ (sendHistory lvl cfg target chunked hist ⟨meth, hs, body, .none, false⟩).attempts,
+    (meth : Str) (hs : List (Str × Str)) (body : Body) (hist : List Outcome) (hr : c11Replayable body) :
+    (∀ a ∈ (sendHistory lvl cfg target chunked hist ⟨meth, hs, body, .none, false, none⟩).attempts,
         a.after303 = false → a.wire = (request cfg meth target hs body chunked).sent.written) ∧
-    ((sendHistory lvl cfg target chunked hist ⟨meth, hs, body, .none, false⟩).result = .ok () ∨
-     ∃ e m h b, (sendHistory lvl cfg target chunked hist ⟨meth, hs, body, .none, false⟩).result = .error e ∧
+    ((sendHistory lvl cfg target chunked hist ⟨meth, hs, body, .none, false, none⟩).result = .ok () ∨
+     (¬ c11Rewindable body ∧
+      (sendHistory lvl cfg target chunked hist ⟨meth, hs, body, .none, false, none⟩).result = .error .unrewindableBody) ∨
+     ∃ e m h b, (sendHistory lvl cfg target chunked hist ⟨meth, hs, body, .none, false, none⟩).result = .error e ∧
        (request cfg m target h b chunked).sent.err = some e) := by
-  have hinv : Inv lvl body body .none := by
-    rcases hr with hst | ⟨hl, f, rfl, hsk, htl⟩
-    · exact Or.inl ⟨hst, rfl, rfl⟩
-    · exact Or.inr ⟨hl, f, f, rfl, hsk, htl, rfl, ⟨rfl, rfl, rfl, rfl⟩, Or.inl ⟨rfl, rfl⟩⟩
-  exact sendHistory_inv lvl cfg target chunked meth hs body hist h303 body .none hinv
+  have hinv : Inv body body .none none := by
+    cases body with
+    | file f => exact Or.inr ⟨f, f, rfl, hr, rfl, ⟨rfl, rfl, rfl, rfl⟩, Or.inl ⟨rfl, rfl, rfl⟩⟩
+    | iter cs one => exact Or.inl ⟨hr, rfl, rfl, Or.inl rfl⟩
+    | none => exact Or.inl ⟨trivial, rfl, rfl, Or.inl rfl⟩
+    | bytes b => exact Or.inl ⟨trivial, rfl, rfl, Or.inl rfl⟩
+    | str s => exact Or.inl ⟨trivial, rfl, rfl, Or.inl rfl⟩
+    | buffer b k => exact Or.inl ⟨trivial, rfl, rfl, Or.inl rfl⟩
+  exact sendHistory_inv lvl cfg target chunked meth hs body hist body .none none hinv
 
-example : c11Rewindable .pool (.file ⟨[1, 2, 3], 1, .ok, .ok, false⟩) := Or.inr ⟨rfl, _, rfl, rfl, rfl⟩
-example : c11Rewindable .manager (.iter [.bytes [1], .str []] false) := Or.inl rfl
-example : ¬ Stable (.file ⟨[1, 2, 3], 1, .ok, .ok, false⟩) → Outcome.redirect303 ∉ [Outcome.redirectKeep, .readErr, .ok] := by
-  intro _; decide
+example : c11Replayable (.file ⟨[1, 2, 3], 1, .absent, .ok, false⟩) := by simp [c11Replayable]
+example : c11Replayable (.iter [.bytes [1], .str []] false) := rfl
+example : c11Rewindable (.file ⟨[1, 2, 3], 1, .ok, .ok, false⟩) := Or.inr ⟨_, rfl, rfl, rfl⟩
+example : c11Rewindable (.iter [.bytes [1], .str []] false) := Or.inl rfl
+
+/-- … in particular a rewindable body is re-sent identically and the call never fails because of
+re-positioning the body: at both levels, also across a 303 -/
+theorem C11_resend_rewindable (lvl : Level) (cfg : Cfg) (target : Str) (chunked : Bool)
+    (meth : Str) (hs : List (Str × Str)) (body : Body) (hist : List Outcome) (hr : c11Rewindable body) :
+    (∀ a ∈ (sendHistory lvl cfg target chunked hist ⟨meth, hs, body, .none, false, none⟩).attempts,
+        a.after303 = false → a.wire = (request cfg meth target hs body chunked).sent.written) ∧
+    ((sendHistory lvl cfg target chunked hist ⟨meth, hs, body, .none, false, none⟩).result = .ok () ∨
+     ∃ e m h b, (sendHistory lvl cfg target chunked hist ⟨meth, hs, body, .none, false, none⟩).result = .error e ∧
+       (request cfg m target h b chunked).sent.err = some e) := by
+  have hrep : c11Replayable body := by
+    rcases hr with hst | ⟨f, rfl, _, htl⟩
+    · cases body <;> simp_all [c11Replayable, Stable]
+    · simp [c11Replayable, htl]
+  obtain ⟨h1, h2⟩ := C11_resend_identical_or_unrewindable_partial lvl cfg target chunked meth hs body hist hrep
+  refine ⟨h1, ?_⟩
+  rcases h2 with h | ⟨hn, _⟩ | h
+  · exact Or.inl h
+  · exact absurd hr hn
+  · exact Or.inr h
 
 theorem C11_resend_oneshot_witness :
     let r := sendHistory .pool c11cfg (lit "/p") false [.retryStatus, .ok] (c11St0 (lit "POST") (.iter [.bytes [97, 98]] true))
@@ -153,23 +203,45 @@ theorem C11_resend_no_tell_witness :
     r.result = .ok () ∧ r.attempts.map c11PayloadOf = [some (.chunked, [1, 2, 3]), some (.chunked, [])] := by
   decide +kernel
 
-theorem C11_resend_manager_redirect_witness :
+/-- the input on which `PoolManager.urlopen` used to re-send an empty body after a 307 (position not
+threaded to the follow-up request): the file is re-sent from its recorded position -/
+theorem C11_resend_manager_redirect_ok :
     let r := sendHistory .manager c11cfg (lit "/p") false [.redirectKeep, .ok]
       (c11St0 (lit "PUT") (.file ⟨[1, 2, 3], 0, .ok, .ok, false⟩))
-    r.result = .ok () ∧ r.attempts.map c11PayloadOf = [some (.chunked, [1, 2, 3]), some (.chunked, [])] := by
+    r.result = .ok () ∧ r.attempts.map c11PayloadOf = [some (.chunked, [1, 2, 3]), some (.chunked, [1, 2, 3])] := by
   decide +kernel
 
-/-- … while the same history at pool level re-sends the body identically -/
+/-- … also after retries inside the pool call and a second redirect, from a start offset -/
+example :
+    let r := sendHistory .manager c11cfg (lit "/p") false [.redirectKeep, .readErr, .redirectKeep, .ok]
+      (c11St0 (lit "PUT") (.file ⟨[1, 2, 3], 1, .ok, .ok, false⟩))
+    r.result = .ok () ∧ r.attempts.map c11PayloadOf =
+      [some (.chunked, [2, 3]), some (.chunked, [2, 3]), some (.chunked, [2, 3]), some (.chunked, [2, 3])] := by
+  decide +kernel
+
+/-- the same history at pool level re-sends the body identically -/
 example :
     let r := sendHistory .pool c11cfg (lit "/p") false [.redirectKeep, .readErr, .ok]
       (c11St0 (lit "PUT") (.file ⟨[1, 2, 3], 1, .ok, .ok, false⟩))
     r.result = .ok () ∧ r.attempts.map c11PayloadOf = [some (.chunked, [2, 3]), some (.chunked, [2, 3]), some (.chunked, [2, 3])] := by
   decide +kernel
 
-theorem C11_resend_pool_303_witness :
+/-- the input on which the pool used to fail with a bare `ValueError` (303 followed with `body=None`
+but the recorded position kept): the follow-up is a body-less, unframed GET -/
+theorem C11_resend_pool_303_ok :
     let r := sendHistory .pool c11cfg (lit "/p") false [.redirect303, .ok]
       (c11St0 (lit "POST") (.file ⟨[1, 2, 3], 0, .ok, .ok, false⟩))
-    r.result = .error .valueError ∧ r.attempts.length = 1 := by
+    r.result = .ok () ∧ r.attempts.map (·.after303) = [false, true] ∧
+      r.attempts.map c11PayloadOf = [some (.chunked, [1, 2, 3]), some (.unframed, [])] ∧
+      (r.attempts.map fun a => (strictParse a.wire).map (·.method)) = [some (lit "POST"), some (lit "GET")] := by
+  decide +kernel
+
+/-- the input on which every retry used to fail with a bare `ValueError` (a file with `tell()` but
+without `seek()`): the first re-send is refused with `UnrewindableBodyError`, nothing is re-sent -/
+theorem C11_resend_tell_without_seek_unrewindable :
+    let r := sendHistory .pool c11cfg (lit "/p") false [.retryStatus, .ok]
+      (c11St0 (lit "PUT") (.file ⟨[1, 2, 3], 0, .absent, .ok, false⟩))
+    r.result = .error .unrewindableBody ∧ r.attempts.map c11PayloadOf = [some (.chunked, [1, 2, 3])] := by
   decide +kernel
 
 /-- a file whose `tell()` fails is refused on the first re-send -/
